@@ -438,7 +438,25 @@ fn issuer_keys(cfg: &Cfg, rep: &mut Report, h: u64, steps: usize, mode: u32) {
     // model: key -> list of (topic, registry)
     let mut pairs: BTreeMap<usize, Vec<(u32, usize)>> = BTreeMap::new();
     let topic_keys = |pairs: &BTreeMap<usize, Vec<(u32, usize)>>, t: u32| -> BTreeSet<usize> { pairs.iter().filter(|(_, v)| v.iter().any(|(x, _)| *x == t)).map(|(k, _)| *k).collect() };
+    // topics for which each registry currently trusts the issuer (allow_key asks the registry)
+    let mut trusted: Vec<BTreeSet<u32>> = vec![(1..=ntop).collect(), (1..=ntop).collect()];
     for step in 0..steps {
+        // a registry changes its mind about the issuer: keys already allowed stay, removal stays possible,
+        // new pairs for an untrusted (registry, topic) are refused
+        if mode == 0 && rng.chance(1, 10) {
+            let ri = rng.idx(2);
+            let keep: Vec<u32> = (1..=ntop).filter(|t| *t > 3 || rng.chance(1, 2)).collect();
+            let mut tv: SVec<u32> = SVec::new(e);
+            for t in &keep {
+                tv.push_back(*t);
+            }
+            let r: Result<(), Fail> = invoke(e, &regs[ri], "update_issuer_claim_topics", args!(e, issuer.clone(), tv));
+            rep.op(format!("#{step} registry {ri} now trusts the issuer for topics {keep:?} -> {}", tag(&r)));
+            if r.is_ok() {
+                trusted[ri] = keep.into_iter().collect();
+                rep.count("registry_trust_edits");
+            }
+        }
         // mode 0: small random; mode 1: drive one key to the 20-registry limit; mode 2: 50 keys per topic
         let (ki, t, ri, add): (usize, u32, usize, bool) = match mode {
             1 => {
@@ -464,10 +482,10 @@ fn issuer_keys(cfg: &Cfg, rep: &mut Report, h: u64, steps: usize, mode: u32) {
         let (desc, want, r): (String, bool, Result<(), Fail>);
         if add {
             let tk = topic_keys(&pairs, t);
-            want = !empty_key && !have.contains(&(t, ri)) && have.len() < 20 && (tk.contains(&ki) || tk.len() < 50);
+            want = !empty_key && trusted[ri].contains(&t) && !have.contains(&(t, ri)) && have.len() < 20 && (tk.contains(&ki) || tk.len() < 50);
             desc = format!("allow_key(key {ki}, registry {ri}, topic {t})");
             r = invoke(e, &issuer, "allow_key", args!(e, pk, regs[ri].clone(), *scheme, t));
-            rep.case(format!("keys/allow/pairs-of-key={}/keys-of-topic={}/dup={}/{}", fill(20, have.len()), fill(50, tk.len()), have.contains(&(t, ri)), tag(&r)));
+            rep.case(format!("keys/allow/trusted={}/pairs-of-key={}/keys-of-topic={}/dup={}/{}", trusted[ri].contains(&t), fill(20, have.len()), fill(50, tk.len()), have.contains(&(t, ri)), tag(&r)));
             if tk.len() >= 50 && tk.contains(&ki) && !have.contains(&(t, ri)) && have.len() < 20 {
                 rep.count("listed_key_paired_again_at_full_topic");
             }
